@@ -55,6 +55,8 @@ def plan(tier, seed):
         shards.append({'name': 'hash_%d' % hs, 'kind': 'hash', 'hashseed': hs,
                        'n': 120 if tier == 'quick' else 600})
     shards.append({'name': 'split', 'kind': 'split'})
+    shards.append({'name': 'large', 'kind': 'large', 'sizes': [1100, 2300] if tier == 'quick' else
+                   [600, 1100, 2300, 4100]})
     shards.append({'name': 'loky', 'kind': 'loky', 'n': 20 if tier == 'quick' else 150,
                    'seed': seed * 1000 + 179})
     return shards
@@ -268,8 +270,56 @@ def pres_case(case, rec, ssj):
     return {'rows': len(base), 'call': call}
 
 
+def large_case(case, rec, ssj):
+    """Schedule / presentation independence on tables beyond 1000 / 2048 rows: the n_jobs=1 result
+    against n_jobs 3 and 8 (right-table chunks below and above 1000 rows) and against permuted tables."""
+    rng = random.Random(case['seed'])
+    kind = case['kind']
+    L, R, planted = gen.large_planted_tables(rng, case['n'], kind)
+    if kind == 'ws':
+        call = {'api': case['api'], 'ltable': L, 'rtable': R, 'l_key': 'id', 'r_key': 'id', 'l_attr': 's',
+                'r_attr': 's', 'tok': {'kind': 'ws', 'return_set': True}, 'threshold': case['threshold'],
+                'n_jobs': 1}
+    else:
+        call = {'api': 'edit_distance_join', 'ltable': L, 'rtable': R, 'l_key': 'id', 'r_key': 'id',
+                'l_attr': 's', 'r_attr': 's', 'tok': {'kind': 'qgram', 'q': 2, 'padding': True, 'return_set': False},
+                'threshold': case['threshold'], 'n_jobs': 1}
+    tag = '[large, %d rows] %s ' % (case['n'], call['api'])
+    try:
+        base = T.exec_call(ssj, call)
+    except Exception as e:
+        rec.count('calls_raised')
+        rec.add('raised', '%s %s: %s' % (call['api'], type(e).__name__, str(e)[:80]))
+        return {'rows': 0}
+    base_rows = rows_of(base)
+    variants = [('n_jobs', 3), ('n_jobs', 8), ('ltable', 'reverse'), ('rtable', 'perm'), ('ltable', 'perm')]
+    for side, how in variants:
+        c = dict(call)
+        if side == 'n_jobs':
+            c['n_jobs'] = how
+        else:
+            c[side] = permute_table(rng, call[side], how)
+        try:
+            df = T.exec_call(ssj, c)
+        except Exception as e:
+            rec.violation('raises', tag + 'variant %s/%s raised %s: %s' % (side, how, type(e).__name__,
+                                                                            str(e)[:200]), case=case)
+            continue
+        rec.count('presentation_calls')
+        rec.count('large_table_variants')
+        if rows_of(df) != base_rows:
+            got = rows_of(df)
+            rec.violation('presentation' if side != 'n_jobs' else 'n_jobs', tag + 'variant %s=%s changes the '
+                          'result: %d rows vs %d; only in variant: %r; only in original: %r' % (
+                              side, how, len(df), len(base), list((got - base_rows).elements())[:2],
+                              list((base_rows - got).elements())[:2]), case=case)
+    return {'rows': len(base), 'call': call}
+
+
 def run_case(case, rec, ssj=None):
     ssj = ssj or env.load()
+    if case['gen'] == 'large':
+        return large_case(case, rec, ssj)
     if case['gen'] == 'chunk':
         return sweep_case(case, rec, ssj)
     if case['gen'] == 'pres':
@@ -376,6 +426,17 @@ def run_shard(shard, rec):
                 d = 'raised:' + type(e).__name__
             rec.add('dg_%04d' % i, d)
             rec.case(sig=('hash', shard['hashseed'], i), nontrivial=True)
+    elif kind == 'large':
+        for x, n in enumerate(shard['sizes']):
+            for y, (knd, api, t) in enumerate([('ws', 'jaccard_join', 0.6), ('ed', 'edit_distance_join', 1),
+                                               ('ws', 'dice_join', 0.85), ('ws', 'overlap_join', 3)]):
+                if rec.tier == 'quick' and (x + y) % 2 and y > 1:
+                    continue
+                case = {'gen': 'large', 'n': n, 'kind': knd, 'api': api, 'threshold': t, 'seed': 300 + 11 * x + y}
+                st = large_case(case, rec, ssj)
+                rec.case(sig=('large', n, api, t), nontrivial=st['rows'] > 0, n=6)
+                rec.count('large_table_cases')
+        rec.sample({'workload': 'large tables', 'sizes': shard['sizes']}, limit=1)
     elif kind == 'split':
         from py_stringsimjoin.utils import generic_helper as gh
         import numpy as np
